@@ -313,7 +313,8 @@ func main() {
 		"stream/flow/processor ends, conditions, dangling processor / flow references, processor types and parameters, " +
 		"roots, unconnected processors, duplicate connections, cycles in either direction, self references); exhaustive " +
 		"response directions over GenerateResponse + k Filters (every subset of the possible connections x every entry " +
-		"point incl. none; k = 1 complete, k = 2 complete in the thorough tier and sampled in the quick one) and exhaustive " +
+		"point incl. none; k = 1 complete, k = 2 complete in the thorough tier and every 5th in the quick one, k = 3 a random " +
+		"sample of sparse subsets) and exhaustive " +
 		"request directions over k Filters + GenerateResponse (every subset of connections x entry point x hit/miss per " +
 		"source); flow-reference graphs over 1-3 flows (every subset of reference edges incl. self / mutual / long cycles, " +
 		"three kinds of reference); random configurations of 1-3 flows with <= 4 Filters each over the whole connection " +
@@ -352,6 +353,9 @@ func main() {
 	}
 	for _, cf := range responseShapes(2, s2) {
 		items = append(items, Item{Label: "response-shapes-2", Config: cf})
+	}
+	for _, cf := range responseShapesRandom(r.Fork(31), 3, o.Scale(600, 12000, 4000)) {
+		items = append(items, Item{Label: "response-shapes-3", Config: cf})
 	}
 	for _, cf := range requestShapes(1, nil) {
 		items = append(items, Item{Label: "request-shapes-1", Config: cf})
